@@ -458,7 +458,8 @@ def parse_corr(chk, n):
     cases = list(G.MEDIA + G.MEDIA_BAD + G.CT_OTHER + G.CT_BAD)
     cases += ["".join(rng.choice(alphabet) for _ in range(rng.randint(0, 7))) for _ in range(n // 3)]
     ws = ["", "", "", " ", "\t", "  "]
-    toks = ["application", "text", "Application", "*", "json", "JSON", "problem+json", "xml", "plain", "x", "a\"b", "vnd.a+json", ""]
+    toks = ["application", "text", "Application", "*", "json", "JSON", "problem+json", "xml", "plain", "x", "a\"b", "vnd.a+json", "",
+            "x-ndjson", "xjson", "json5", "geo+json-seq"]
     params = ["charset=utf-8", "q=0.5", "a=\"b;c\"", "a=\"b\\\";c\"", "\"", "", "x", "a=\"b"]
     for _ in range(n - n // 3):
         s = rng.choice(ws) + rng.choice(toks) + rng.choice(ws) + rng.choice(["/", "/", "/", "", "//"]) + rng.choice(toks) + rng.choice(ws)
@@ -490,6 +491,15 @@ def parse_corr(chk, n):
             ij = False
         if ij != m["json"]:
             chk.disagreement("media_types.parse", {"s": s, "fn": "is_json"}, m["json"], ij)
+        # replay (RFC 6839 structured syntax suffix): a media type is JSON iff its subtype is `json` or ends in `+json`;
+        # `application/x-ndjson`, `text/xjson` are not, and their bodies must not be read as one JSON document
+        if m["plain"] and m["spec"] is not None and len(m["spec"]) == 2:
+            main_, sub = m["spec"]
+            suffix = sub == "json" or sub.endswith("+json")
+            # (whether a JSON-suffixed subtype under another top-level type than `application` counts is left to the code)
+            if (ij and not suffix) or (main_ == "application" and suffix and not ij):
+                chk.violation("C04:media_types.is_json:differs-from-json-or-plus-json-suffix",
+                              f"is_json({s!r}) = {ij}; the subtype is {sub!r}", {"s": s, "is_json": ij})
 
 
 def coerce_corr(chk):
